@@ -35,6 +35,11 @@ type Frame struct {
 	deferIdx int
 }
 
+type b64Pair struct {
+	chars []*Term
+	bytes []*Term
+}
+
 type nondetVar struct {
 	Name string // harness-given name
 	T    *Term
@@ -54,6 +59,7 @@ type State struct {
 	reached  []string
 	lockDepth int
 	ufApps   []*Term
+	b64      []b64Pair
 }
 
 var stateIDs uint64
@@ -77,6 +83,7 @@ func (st *State) fork() *State {
 	n.nondets = append([]nondetVar(nil), st.nondets...)
 	n.reached = append([]string(nil), st.reached...)
 	n.ufApps = append([]*Term(nil), st.ufApps...)
+	n.b64 = append([]b64Pair(nil), st.b64...)
 	n.binds = make(map[*Term]uint64, len(st.binds))
 	for k, v := range st.binds {
 		n.binds[k] = v
